@@ -28,7 +28,11 @@ RULE = ("hist: one real Process over a fake /proc driven by random sequences of 
         "list/tuple/set/frozenset, through Process.as_dict and through process_iter(attrs=...); live: a real stopped child on the "
         "real /proc, histories over two Process objects, threads, process_iter, a change made by the child while a block is open; "
         "copyhist: copy.copy / deepcopy / pickle of the object inside and outside blocks, then kernel changes and queries of original "
-        "and copies inside / outside their own blocks (copy protocol of the tree probed on every run). "
+        "and copies inside / outside their own blocks (copy protocol of the tree probed on every run); "
+        "mgr: oneshot() context-manager OBJECTS built by p.oneshot() at one moment and entered (with / "
+        "contextlib.ExitStack.enter_context) at another: built up front and nested later, built inside an open block and "
+        "entered on their own after it, built outside and entered inside another block, never entered; kernel changes and read "
+        "counters between the calls (systematic sweep of creation moments + random histories). "
         "Non-trivial = contains at least one method call; distinct = distinct canonical case hash.")
 TRUSTED = ["correspondence harness props/C16.py, props/_c16_sched.py (sys.settrace line scheduler), props/_c16_live.py (real /proc), pv/ (fake /proc)",
            "read counting by wrapping psutil._pslinux.bcat/open_binary and attributing by calling frame",
@@ -39,7 +43,11 @@ ASSUMPTIONS = ["granularity is the source line (as the property states); byte-co
                "a source reappearing after the process vanished, a single file of a live process vanishing and "
                "NotImplementedError inside as_dict are outside the claim (spec None / skipped); ppid() is covered "
                "everywhere else, including an unreadable stat and the sticky Process._gone"]
-EXHAUSTIVE = {"quick": "",
+EXHAUSTIVE = {"quick": "mgr: for the base histories {two nested blocks, two sequential blocks} x 7 method triples, {three nested "
+                       "blocks} x 3 triples, {blocks around an exception in the body} x 2 triples: every combination of creation "
+                       "moments of the manager objects (the first-entered one up front or at entry, every other one at every "
+                       "position of the history up to its entry, both orders when created together), plus never-entered managers "
+                       "(props/_c16_mgr.py systematic(), 413 cases, part of every tier, never sampled)",
               "thorough": "all schedules of {enter;call;exit;enter;call;exit} || {call;call} || {source change} of the form "
                           "owner a steps, caller b steps, change, owner c steps, caller 4 steps, rest (a<=26, b<=5, c<=26 in steps "
                           "of 1 for b in {2,3}, of 5 otherwise) for 3 method pairs"}
@@ -368,6 +376,11 @@ def gen_cases(rng, tier):
                 c["order"] = next(it)
         cases += ad
         cases += _gen_any(rng, {"quick": 80, "thorough": 1500, "search": 400}[tier], d["all"])
+    # ---- oneshot() manager OBJECTS created ahead of / apart from their entry (systematic, every tier, never sampled)
+    from props import _c16_mgr
+    cases += _c16_mgr.systematic(METHODS)
+    for _ in range({"quick": 120, "thorough": 4000, "search": 600}[tier]):
+        cases.append(_c16_mgr.random_case(rng, METHODS, rng.choice([8, 12, 20, 30])))
     cases += _gen_live(rng, {"quick": 8, "thorough": 40, "search": 8}[tier])
     cases += _gen_copy(rng, {"quick": 60, "thorough": 1200, "search": 300}[tier],
                        _COPY_TABLE or COPY_TABLE_OF_RECORD)
@@ -653,6 +666,9 @@ def coq_term(case):
     k = case["kind"]
     if k == "hist":
         return "run_hist %s %s %s %d%%nat" % (VARIANT, _init(case), _ops(case["ops"]), 10 * (len(case["ops"]) + 2 * sum(1 for o in case["ops"] if o[0] == "callx")) + 6)
+    if k == "mgr":
+        from props import _c16_mgr
+        return "run_mgr %s %s" % (_init(case), G.lst([_c16_mgr.coq_op(o, _op) for o in case["ops"]]))
     if k == "sched":
         progs = G.lst([_ops(p) for p in case["progs"]])
         return "run_threads %s %s %s [%s]%%nat" % (VARIANT, _init(case), progs, ";".join(str(t) for t in case["sched"]))
@@ -708,6 +724,9 @@ def coq_struct(case, raw):
     if k == "hist":
         return {"model": {"res": raw[0], "ptrs": raw[2]}, "done": raw[1], "seq": {"res": raw[3], "ptrs": raw[4]},
                 "spec": raw[5]}
+    if k == "mgr":
+        return {"model": None if raw[0] is None else {"res": raw[0][0], "ptrs": raw[0][1]}, "done": True,
+                "seq": {"res": raw[1][0], "ptrs": raw[1][1]}, "spec": raw[2]}
     if k == "sched":
         threads = [[[r[0], r[1]] for r in th] for th in raw[0]]
         return {"model": {"threads": threads, "ptrs": raw[2]}, "done": raw[1],
@@ -805,7 +824,9 @@ def judge(case, coq, impl):
         if impl.get("t") == "LiveOk":
             return Verdict("ok")
         return Verdict("violation", "live /proc: %s" % (impl.get("a"),))
-    if k == "hist":
+    if k == "mgr" and coq["model"] is None:
+        return Verdict("corr", "the generated manager history is outside the domain of coq/C16/Mgr.v (generator error)")
+    if k in ("hist", "mgr"):
         if not coq["done"]:
             return Verdict("corr", "model run did not finish within its step budget")
         spec = coq["spec"]
@@ -818,7 +839,9 @@ def judge(case, coq, impl):
                 if s[1] is not None and r[1] != s[1]:
                     return Verdict("violation", "call #%d opens [stat,status,smaps,statm] %r times, the property allows %r" % (i, r[1], s[1]))
         if coq["seq"] != coq["model"]:
-            return Verdict("corr", "the sequential reading and the interleaving semantics run alone disagree (contradicts C16_seq_is_lts_alone)")
+            return Verdict("corr", "the manager-object model and the same history written with `with` disagree (contradicts C16_precreated_same_as_with)"
+                           if k == "mgr" else
+                           "the sequential reading and the interleaving semantics run alone disagree (contradicts C16_seq_is_lts_alone)")
         if impl != coq["model"]:
             return Verdict("corr", "impl != model")
         return Verdict("ok")
@@ -1272,6 +1295,9 @@ def impl_run(case, coq, env):
                     except Exception:  # noqa
                         pass
             return out
+        if k == "mgr":
+            from props import _c16_mgr
+            return _c16_mgr.run_impl(case, tgt, Runner, BodyError)
         if k == "hist":
             r = Runner(tgt)
             for o in case["ops"]:
